@@ -44,6 +44,9 @@ def oracle_check(prop, payload):
         return oracles.c18_oracle(payload["text"])
     if kind == "c19":
         return oracles.c19_check(payload)
+    if kind == "sem":
+        from . import asp_oracle, semprops
+        return asp_oracle.semantic_check(payload, rng=random.Random(semprops._h(payload["text"])))
     return None
 
 
@@ -52,10 +55,26 @@ def matches_finding(prop, payload, failure, finding):
     if m == "exact":
         return payload.get("text", "").strip() == finding["witness"].get("text", "").strip() and \
             all(payload.get(k) == v for k, v in finding["witness"].items() if k != "text")
+    if m == "text":
+        return _norm(payload.get("text", "")) == _norm(finding["witness"].get("text", ""))
     if m == "c18_unpool":
         # the failure is attributed to the pool finding iff it disappears once every statement is unpooled
         return oracles.c18_oracle(oracles.unpooled_text(payload["text"])) is None
     return False
+
+
+def _norm(t):
+    import re
+    return re.sub(r"\s+", "", t)
+
+
+def witnesses(prop):
+    import os
+    from .common import VERIF
+    p = os.path.join(VERIF, "corpus", "witness.json")
+    if not os.path.exists(p):
+        return []
+    return [w for w in json.load(open(p, encoding="utf-8")) if prop in w.get("props", [])]
 
 
 def replay_finding(prop, finding):
@@ -112,12 +131,37 @@ def oracle_cases(prop, tier, rng, inputs, fixed_only=True):
             yield {"text": i["text"], "origin": i["origin"]}
     elif kind == "c19":
         yield from c19_cases(tier, rng, inputs)
+    elif kind == "sem":
+        from . import semprops
+        for w in witnesses(prop):
+            yield {k: w[k] for k in ("text", "traits", "input", "output", "mode", "instances") if k in w}
+        fixed = [i for i in inputs if not i["origin"].startswith("gen:")] if fixed_only else inputs
+        yield from semprops.payloads(prop, fixed)
 
 
 def run_oracle(prop, tier, rng, inputs, known):
     t0 = time.time()
     fails = []
     stats = {"evaluations": 0, "attributed_to_known_findings": 0, "failures": 0}
+    if PROPS[prop].get("oracle") == "sem":
+        from . import common, semprops
+        allknown = common.load_known_findings().get("findings", [])
+        pls = list(oracle_cases(prop, tier, rng, inputs))
+        for payload, failure, err in semprops.run_parallel(pls):
+            stats["evaluations"] += 1
+            if err:
+                stats["oracle_errors"] = stats.get("oracle_errors", 0) + 1
+            if failure is None:
+                continue
+            if any(matches_finding(prop, payload, failure, f) for f in allknown):
+                stats["attributed_to_known_findings"] += 1
+                continue
+            stats["failures"] += 1
+            if len(fails) < 3:
+                fails.append({"case": payload, "failure": failure})
+        stats["wall_s"] = round(time.time() - t0, 1)
+        stats["note"] = "support only: clingo differential run over the fixed corpus (witnesses + repo test programs)"
+        return fails, stats
     for payload in oracle_cases(prop, tier, rng, inputs):
         stats["evaluations"] += 1
         try:
@@ -155,9 +199,28 @@ def search(prop, tier, rng, inputs, fam_results, known):
     kind = PROPS[prop].get("oracle")
     if kind is None:
         return []
-    stream = itertools.chain(cands, oracle_cases(prop, tier, rng, inputs),
-                             ({"text": g["text"], "origin": g["origin"]}
-                              for g in inp_mod.generated(rng.randrange(1 << 30), 100000, "search")))
+    allknown = None
+    from . import common as _c
+    allknown = _c.load_known_findings().get("findings", [])
+    if kind == "sem":
+        from . import semprops
+        gen = (pl for g in inp_mod.generated_iter(rng.randrange(1 << 30))
+               for pl in semprops.payloads(prop, [g]))
+        cands = [pl for c in cands for pl in semprops.payloads(prop, [c])]
+        stream = itertools.chain(cands, oracle_cases(prop, tier, rng, inputs, fixed_only=False), gen)
+        while time.time() - t0 < budget:
+            batch = list(itertools.islice(stream, 128))
+            if not batch:
+                break
+            for payload, failure, err in semprops.run_parallel(batch):
+                if failure is None:
+                    continue
+                if any(matches_finding(prop, payload, failure, f) for f in allknown):
+                    continue
+                return [{"case": payload, "failure": failure}]
+        return []
+    gen = ({"text": g["text"], "origin": g["origin"]} for g in inp_mod.generated_iter(rng.randrange(1 << 30)))
+    stream = itertools.chain(cands, oracle_cases(prop, tier, rng, inputs, fixed_only=False), gen)
     found = []
     for payload in stream:
         if time.time() - t0 > budget:
@@ -170,7 +233,7 @@ def search(prop, tier, rng, inputs, fam_results, known):
             continue
         if failure is None:
             continue
-        if any(matches_finding(prop, payload, failure, f) for f in known):
+        if any(matches_finding(prop, payload, failure, f) for f in allknown):
             continue
         found.append({"case": payload, "failure": failure})
         break
